@@ -150,10 +150,13 @@ def run_for(prop: str, seed: int = 0, jobs: int = 16) -> dict:
                      "note": "positional arguments of calls to repository functions (all but the first) written as keywords"})
     variants.append({"property": prop, "id": "%s-rename-all-locals" % prop, "kind": "silent", "rule": None, "edits": [], "global": "rename-locals",
                      "note": "every function-local variable of every function without closures renamed (<name>_rn)"})
-    try:
-        baseline = violations_of(prop, sources)
-    except AnalysisError:
-        baseline = []
+    baseline = violations_of(prop, sources)
+    # the self-test presupposes a tree on which the rules are silent (known findings aside); otherwise a rule that
+    # raises a false alarm on the unmodified tree would hide behind the baseline
+    from sa.report import Instance, is_known, load_known
+
+    known = load_known()
+    unexpected = [b for b in baseline if not is_known(prop, Instance(b[0], b[1], b[2], b[3], "violation"), known)]
     tasks = [(prop, v, sources, baseline) for v in variants]
     results = []
     if tasks:
@@ -161,6 +164,7 @@ def run_for(prop: str, seed: int = 0, jobs: int = 16) -> dict:
             results = list(ex.map(_run_one, tasks))
     failed = [r for r in results if r["status"] == "FAIL"]
     summary = {
+        "baseline_violations_not_in_known_findings": [list(b[:4]) for b in unexpected],
         "variants": len(results),
         "passed": sum(1 for r in results if r["status"] == "pass"),
         "skipped": sum(1 for r in results if r["status"] == "skipped"),
